@@ -1,6 +1,7 @@
 """C20 — synthetic generators deliver the requested size, edge count and symmetry."""
 import sys, math
 from common import *  # noqa
+import seq_common as seqc
 import scipy.stats, scipy.linalg  # noqa  (imported here so that maketoeplitzCIJ's in-function import never runs under the watchdog)
 
 PID = 'C20'
@@ -273,6 +274,71 @@ def gen_cases(rs, tier):
     return cases
 
 
+def explicit_sequences(rs, tier):
+    """sibling generators at equal n in one fresh process, dense requests after sparse ones, options away from the default first"""
+    def S():
+        return int(rs.randint(2 ** 31))
+    seqs = []
+    for n in (4, 8):
+        mxs = int(math.log2(n)); full = n * (n - 1)
+        szc = 1 if n == 4 else 2                      # cluster cells n * (2**szc - 1): 4 resp. 24
+        seqs.append([{'routine': 'makeevenCIJ', 'n': n, 'k': n * (2 ** szc - 1) + 6 * (n // 8) + 2 * (n // 4 % 2), 'sz_cl': szc, 'seed': S(), 'seq': True},
+                     {'routine': 'makerandCIJ_dir', 'n': n, 'k': full * 3 // 4, 'seed': S(), 'seq': True},
+                     {'routine': 'makeevenCIJ', 'n': n, 'k': full - 3, 'sz_cl': 1, 'seed': S(), 'seq': True},
+                     {'routine': 'makerandCIJ_und', 'n': n, 'k': full // 2, 'seed': S(), 'seq': True},
+                     {'routine': 'makeringlatticeCIJ', 'n': n, 'k': full - 1, 'seed': S(), 'seq': True}])
+    for n in range(3, 9):
+        full = n * (n - 1)
+        seqs.append([{'routine': 'makerandCIJ_dir', 'n': n, 'k': 1, 'seed': S(), 'seq': True},
+                     {'routine': 'makerandCIJ_und', 'n': n, 'k': 1, 'seed': S(), 'seq': True},
+                     {'routine': 'makeringlatticeCIJ', 'n': n, 'k': 2, 'seed': S(), 'seq': True},
+                     {'routine': 'makerandCIJ_dir', 'n': n, 'k': full, 'seed': S(), 'seq': True},
+                     {'routine': 'makerandCIJ_und', 'n': n, 'k': full // 2, 'seed': S(), 'seq': True},
+                     {'routine': 'makeringlatticeCIJ', 'n': n, 'k': full, 'seed': S(), 'seq': True},
+                     {'routine': 'maketoeplitzCIJ', 'n': n, 'k': 2, 's': 1.0, 'seed': S(), 'seq': True},
+                     {'routine': 'maketoeplitzCIJ', 'n': n, 'k': full // 2, 's': 4.0, 'seed': S(), 'seq': True}])
+    for mx in (2, 3):
+        n = 2 ** mx
+        seqs.append([{'routine': 'makefractalCIJ', 'mx_lvl': mx, 'E': 3, 'sz_cl': 1, 'seed': S(), 'seq': True},
+                     {'routine': 'makeevenCIJ', 'n': n, 'k': n * (n - 1) - 1, 'sz_cl': 1, 'seed': S(), 'seq': True},
+                     {'routine': 'makefractalCIJ', 'mx_lvl': mx, 'E': 1, 'sz_cl': mx, 'seed': S(), 'seq': True},
+                     {'routine': 'makeevenCIJ', 'n': n, 'k': n * (2 ** mx - 1), 'sz_cl': mx, 'seed': S(), 'seq': True},
+                     {'routine': 'makerandCIJ_dir', 'n': n, 'k': n * (n - 1), 'seed': S(), 'seq': True}])
+    return seqs
+
+
+def gen_probes(rs, tier):
+    """object-reuse probes for the only generator with array arguments: the degree vectors relabelled in place (stays graphical),
+    and the returned matrix edited by the caller before the second call"""
+    probes = []
+    while len(probes) < (50 if tier != 'thorough' else 500):
+        n = int(rs.randint(3, 7)); A = rand_graph(rs, n, float(rs.choice([.3, .5, .7])), True)
+        if A.sum() == 0:
+            continue
+        probes.append({'probe': True, 'kind': ('same', 'edit-returned')[len(probes) % 2], 'routine': 'makerandCIJdegreesfixed',
+                       'inv': [int(x) for x in A.sum(0)], 'outv': [int(x) for x in A.sum(1)], 'perm': [int(x) for x in rs.permutation(n)],
+                       'seed': int(rs.randint(2 ** 31))})
+    return probes
+
+
+def run_probe(pr):
+    bct = import_bct()
+    f = bct.makerandCIJdegreesfixed
+    if pr['kind'] == 'same':
+        def fn(inv, outv, seed=None):
+            return f(inv, outv, seed=seed)
+    else:
+        def fn(inv, outv, seed=None):
+            out = f(inv, outv, seed=seed)
+            out[...] = 1 - out             # the caller edits the returned matrix in place
+            return f(inv, outv, seed=seed)
+
+    def mutate(args):
+        p = np.array(pr['perm'])
+        args[0][:] = args[0][p]; args[1][:] = args[1][p]
+    return reuse_probe(fn, [np.array(pr['inv']), np.array(pr['outv'])], mutate, t=5.0, seed=pr['seed'])
+
+
 def main():
     ck = Check(PID)
     ck.cov['rule'] = ('cases: makerandCIJ_dir / makeringlatticeCIJ every (N,K) with 2<=N<=8(11), 0<=K<=N(N-1); makerandCIJ_und every K<=N(N-1)/2; 5 seeds each; '
@@ -284,6 +350,9 @@ def main():
                        'predicates gives-up-after-10000-rejections / gives-up-on-graphical-input; they match the open known findings only if (degreesfixed) the input is graphical and the '
                        'as-coded model gives up on the same draws, (toeplitz) the independently computed clipped template falls short of K by >= 3 expected connections; '
                        'any other give-up, and a degreesfixed give-up rate above 15 %, is a new VIOLATION; rates are in coverage.give_up_rates',
+                       'history: the shuffled cases run in batches of 40, each batch sequentially in a fresh process, plus explicit sequences of sibling generators at equal n '
+                       '(dense requests after sparse ones); a failure is reported with the calls that preceded it in its process (replayed as history + case); '
+                       'object-reuse probes (common.reuse_probe) for makerandCIJdegreesfixed, the only generator with array arguments',
                        'a call that hits the watchdog is re-tried once with 10x the budget; > 5 % timeouts or no normal return for a routine is a violation',
                        'maketoeplitzCIJ / makefractalCIJ: the float threshold matrix (scaled Gaussian profile, 1/E**ee) is observed in the real run '
                        '(through the array returned by random_sample) and given to the model as exact dyadic rationals; norm.pdf, the float scaling and the float powers are not modelled',
@@ -291,16 +360,29 @@ def main():
     ok = ck.lean_gate(['BctVerif.Props.C20'], extra_modules=['BctVerif.Model.Synth'])
     if ck.tier == 'thorough' and ok:
         ck.leanchecker(['BctVerif.Props.C20', 'BctVerif.Model.Synth'])
+    probes = []
     if ck.replay:
         rp = json.load(open(ck.replay))
-        if 'case' in rp:            # a violation replay: the failing input
-            cases = [rp['case']['case']]
+        if 'case' in rp and isinstance(rp['case'].get('case'), dict) and rp['case']['case'].get('probe'):
+            batches, probes = [], [rp['case']['case']]
+        elif 'case' in rp and 'case' in rp['case']:   # a violation replay: the failing input preceded by the calls its process had made before
+            batches = [seqc.replay_batch(rp)]
+        elif 'case' in rp:
+            batches = []                              # aggregate verdicts (rates) have no single input
         else:                       # a 'no longer checks' replay: the correspondence cases named in it
-            cases = [b['detail']['case'] for b in rp.get('no_longer_checks', [])
-                     if isinstance(b.get('detail'), dict) and 'case' in b['detail']]
+            batches = [[b['detail']['case'] for b in rp.get('no_longer_checks', [])
+                        if isinstance(b.get('detail'), dict) and 'case' in b['detail']]]
     else:
-        cases = gen_cases(ck.rs, ck.tier)
-    results = pmap(run_case, cases)
+        # history across calls: shuffled batches, one fresh process per batch, plus explicit sequences
+        batches = seqc.make_batches(ck.rs, gen_cases(ck.rs, ck.tier), 40, explicit_sequences(ck.rs, ck.tier))
+        probes = gen_probes(ck.rs, ck.tier)
+    cases, results, hist = seqc.run_batches(run_case, batches)
+    ck.count('batches', len(batches)); ck.count('explicit_sequence_cases', sum(1 for c in cases if c.get('seq')))
+    for pr, d in zip(probes, pmap(run_probe, probes)):
+        ck.count('reuse_probe:' + pr['kind'])
+        ck.case(nontrivial_key=digest(['probe', pr]))
+        if d is not None:
+            ck.violation(pr['routine'], 'result-depends-on-history', {'case': pr, 'probe': d}, {'routine': pr['routine']})
     lines, idx, pending = [], [], []
     giveup_budget = GIVEUP_REPLAYS[ck.tier]
     for n_, (c, r) in enumerate(zip(cases, results)):
@@ -322,10 +404,10 @@ def main():
                 ck.count(rt + ':gave-up')
                 pending.append((n_, cond))
             else:
-                ck.violation(rt, 'raises', {'case': c, 'exception': r['exc']}, cond)
+                ck.violation(rt, 'raises', {'case': c, 'history': hist[n_], 'exception': r['exc']}, cond)
         else:
             for pred, info in r['fails']:
-                ck.violation(rt, pred, {'case': c, 'output': r.get('X'), 'info': info}, cond)
+                ck.violation(rt, pred, {'case': c, 'history': hist[n_], 'output': r.get('X'), 'info': info}, cond)
         if rt == 'maketoeplitzCIJ' and r.get('thr') is not None:
             T = np.array(r['thr']); nn = c['n']
             toep = all(T[i, j] == (0 if i == j else T[0, abs(i - j)]) for i in range(nn) for j in range(nn))
@@ -372,7 +454,7 @@ def main():
         o = model_out.get(n_)
         cond['model_gives_up'] = (o == 'error=BCTParamError') if o is not None else 'not-replayed'
         pred = 'gives-up-on-graphical-input' if rt == 'makerandCIJdegreesfixed' else 'gives-up-after-10000-rejections'
-        ck.violation(rt, pred, {'case': c, 'exception': results[n_].get('exc'), 'model': o}, cond)
+        ck.violation(rt, pred, {'case': c, 'history': hist[n_], 'exception': results[n_].get('exc'), 'model': o}, cond)
     if not ck.replay:
         dom = [(c, r) for c, r in zip(cases, results) if c['routine'] == 'makerandCIJdegreesfixed' and c.get('graphical') and not c.get('malformed')]
         gu = sum(r['status'] == 'exc' and exc_kind(r['exc']) == 'BCTParamError' for c, r in dom)
